@@ -26,7 +26,9 @@ class Job:
         return self.cfg_defines() + self.defines + (['WITNESS'] if self.witness else []) + (['IR_MEMSET_SWEEP'] if self.sweep else [])
 
 def verif_hash():
-    return build.tree_hash([os.path.join(VERIF, d) for d in ('tools', 'rt', 'shim', 'harness')])
+    # everything that shapes a query; the registry itself is not hashed: each job's parameters are part of its own key
+    return build.tree_hash([os.path.join(VERIF, d) for d in ('rt', 'shim', 'harness')] +
+                           [os.path.join(VERIF, 'tools', f) for f in ('ir2c.py', 'irparse.py', 'build.py', 'driver.py', 'nodesizes.py')] + [os.path.join(VERIF, 'tools', 'bin')])
 
 _build_lock = threading.Lock()
 # never schedule more than MEM_BUDGET GB of per-query memory caps at once (the machine has 62 GB)
@@ -56,7 +58,7 @@ def get_group(job):
 
 def job_key(job, rh, vh):
     return build.sha(rh, vh, job.name, job.group, job.config, job.harness, ' '.join(job.all_defines()), str(job.unwind),
-                     ','.join(job.unwindset), str(job.temp_mode), ' '.join(job.extra), str(job.solver))
+                     ','.join(job.unwindset), str(job.temp_mode), ' '.join(job.extra), str(job.solver), job.roots, str(job.threads), job.function, str(job.witness), str(job.sweep))
 
 def sweep_unwind(job, g):
     if not job.sweep: return []
@@ -76,7 +78,7 @@ def run_job(job, rh, vh, use_cache=True):
     cdir = os.path.join(WORK, 'results'); os.makedirs(cdir, exist_ok=True)
     cpath = os.path.join(cdir, job_key(job, rh, vh) + '.json')
     if use_cache and os.path.exists(cpath):
-        r = json.load(open(cpath)); r['cached'] = True
+        r = json.load(open(cpath)); r['cached'] = True; r['desc'] = job.desc; r['bounds'] = job.bounds
         return r
     t0 = time.time()
     res = dict(job=job.name, harness=job.harness, group=job.group, config=job.config, defines=job.all_defines(),
@@ -100,7 +102,7 @@ def run_job(job, rh, vh, use_cache=True):
         r = build.run_cbmc(g, job.harness, defines=job.all_defines(), unwind=job.unwind, unwindset=uws,
                            timeout=job.timeout, mem_gb=job.mem_gb, function=job.function, extra=extra)
     res.update(cbmc_status=r['status'], solver_wall_s=round(r['time'], 2), n_props=len(r['props']),
-               steps=r.get('steps'), vars=r.get('vars'), clauses=r.get('clauses'), cmd=r['cmd'])
+               steps=r.get('steps'), vars=r.get('vars'), clauses=r.get('clauses'), cmd=r['cmd'], rss_mb=r.get('rss_mb'), cap_mb=int(job.mem_gb * 1024))
     res['prop_list'] = [p[1] for p in r['props']]
     if r['status'] in ('timeout', 'oom'):
         res.update(status='undecided', detail=r['status'])
